@@ -44,6 +44,9 @@ func NewRolloutScn(c *vs.Case, o RolloutOpts) *Scn {
 	}
 	s.Cfg = CtlConfig{Kind: "composite", Name: "ctl", ParentResource: "things", SyncHook: true, Children: []ChildCfg{ch}}
 	customPaths := c.Bool()
+	if !customPaths && !o.Small {
+		s.Cfg.EmptyRevisionHistory = c.Weighted(4, 1, 1)
+	}
 	if customPaths {
 		s.Cfg.FieldPaths = []string{"spec.template"}
 		if !o.Small {
